@@ -142,6 +142,35 @@ def degenerate_cases(draw, tier, op):
     return case
 
 
+SCALE_FAMS = ['eigh', 'qr', 'lu', 'inv', 'solve', 'chol', 'svd', 'dot', 'outer', 'trace', 'det']
+
+
+@st.composite
+def scaled_cases(draw, tier, fam):
+    """one scale-tolerant operation; the curve of every direction (base point and all coefficients, all inputs) is multiplied
+    by its own power of two: magnitudes differ by up to 2^54 between directions, so anything derived from 'the' magnitude of the
+    data (thresholds, pivots, work arrays) must be derived per direction"""
+    case = draw(M.meta_cases(tier, first=fam, families=['neg'], max_len=1, Pmin=2, Dmax=5))
+    K = case['pts'][0].shape[0]
+    sc = [draw(st.sampled_from([1.0, 2.0 ** 34, 2.0 ** -20, 1.0])) for _ in range(K)]
+    P = case['P']
+    case['pts'] = [np.array(p * np.array(sc).reshape((K,) + (1,) * (p.ndim - 1))) for p in case['pts']]
+    for h in case['hi']:
+        for q in range(P):
+            h[:, q] *= sc[1 + q]
+    for h in case['althi']:
+        h *= sc[0]
+    case['scales'] = sc
+    return case
+
+
+def _scale_classes(case):
+    P = case['P']
+    sc = case['scales'][1:1 + P]
+    return ['D=%d' % case['D'], 'P=%d' % P, 'first=' + case['prog'][0][0],
+            'scales-differ' if len(set(sc)) > 1 else 'scales-equal', 'ratio=2^%d' % int(round(np.log2(max(sc) / min(sc))))]
+
+
 def _deg_classes(case):
     P = case['P']
     d = case['deg'][1:1 + P]
@@ -164,6 +193,10 @@ def buckets(tier):
     for op in ('qr', 'eigh_val', 'eigh_fun'):      # (qr_full inverts R_0: no rank deficient support, it raises LinAlgError)
         bl.append(Bucket('fwd:degenerate:' + op, (lambda op=op: degenerate_cases(tier, op)), prop_forward,
                          {'quick': 60, 'thorough': 600}, nontrivial=(lambda case: True), classes=_deg_classes))
+    for fam in SCALE_FAMS:
+        bl.append(Bucket('fwd:scales:' + fam, (lambda fam=fam: scaled_cases(tier, fam)), prop_forward,
+                         {'quick': 30, 'thorough': 300}, nontrivial=(lambda case: len(set(case['scales'][1:1 + case['P']])) > 1),
+                         classes=_scale_classes))
     for fam in M.REV_SINGLE:
         bl.append(Bucket('rev:' + fam, (lambda fam=fam: M.meta_cases(tier, first=fam, families=M.CHEAP_TAIL, max_len=3, Pmin=2, reverse_mode=True)),
                          prop_reverse, {'quick': 25, 'thorough': 250}, nontrivial=_distinct, classes=_classes, weight=2.0))
